@@ -3,6 +3,7 @@ pub mod c01;
 pub mod c02;
 pub mod c03;
 pub mod c04;
+pub mod c05;
 pub mod c06;
 pub mod c07;
 pub mod c08;
@@ -24,6 +25,7 @@ pub fn dispatch(run: &Run) -> bool {
         "C02" => c02::run(run),
         "C03" => c03::run(run),
         "C04" => c04::run(run),
+        "C05" => c05::run(run),
         "C06" => c06::run(run),
         "C07" => c07::run(run),
         "C08" => c08::run(run),
